@@ -1,1 +1,151 @@
-fn main(){ let p = dnssector::ParsedPacket::empty(); println!("{}", serde_json::json!({"len": p.packet().len()})); }
+mod battery;
+mod codec;
+mod exec;
+mod gen;
+mod gensrc;
+mod model;
+mod ops;
+mod prng;
+
+use std::collections::BTreeMap;
+
+fn arg_val(args: &[String], name: &str) -> Option<String> {
+    args.iter().position(|a| a == name).and_then(|i| args.get(i + 1).cloned())
+}
+
+pub fn make_run(seed: u64, focus: gensrc::Focus) -> (ops::Init, gensrc::GenSource, String) {
+    let mut rng = prng::Rng::new(seed);
+    let swarm = gensrc::Swarm::draw(&mut rng, focus);
+    let weights: [u32; 6] = match focus {
+        gensrc::Focus::Faults => [20, 40, 15, 5, 15, 5],
+        gensrc::Focus::DeleteWalk => [15, 45, 30, 8, 1, 1],
+        _ => [20, 45, 20, 8, 5, 2],
+    };
+    let mut cfg = gen::gen_packet_cfg(&mut rng, &weights);
+    if focus == gensrc::Focus::DeleteWalk {
+        cfg.unique_tags = true;
+        cfg.max_section = 12;
+    }
+    let init = match rng.below(12) {
+        0 => ops::Init::Empty {
+            tid: rng.next_u64() as u16,
+        },
+        1 => {
+            let n = gen::gen_ldh_name(&mut rng);
+            ops::Init::Query {
+                name_text: String::from_utf8_lossy(&n.text()).into_owned(),
+                qtype: *rng.pick(&[1u16, 28, 15, 2]),
+                tid: rng.next_u64() as u16,
+            }
+        }
+        _ => {
+            let m = gen::gen_msg(&mut rng, &cfg);
+            let bytes = gen::encode_with(&m, &cfg, rng.next_u64());
+            ops::Init::Bytes(bytes)
+        }
+    };
+    let shape = match &init {
+        ops::Init::Bytes(_) => format!("{}/{}/{:?}", cfg.shape.name(), cfg.density, cfg.opt),
+        ops::Init::Empty { .. } => "synth-empty".into(),
+        ops::Init::Query { .. } => "synth-query".into(),
+    };
+    let src = gensrc::GenSource::new(rng.next_u64(), swarm);
+    (init, src, shape)
+}
+
+fn main() {
+    // anyhow captures a backtrace per error when RUST_BACKTRACE is set: ~100x slowdown, no use here
+    std::env::set_var("RUST_LIB_BACKTRACE", "0");
+    std::env::set_var("RUST_BACKTRACE", "0");
+    let args: Vec<String> = std::env::args().collect();
+    battery::install_panic_hook();
+    let cmd = args.get(1).map(|s| s.as_str()).unwrap_or("");
+    match cmd {
+        "explore" => {
+            let focus = match arg_val(&args, "--focus").as_deref() {
+                Some("effect") => gensrc::Focus::Effect,
+                Some("faults") => gensrc::Focus::Faults,
+                Some("delete") => gensrc::Focus::DeleteWalk,
+                _ => gensrc::Focus::View,
+            };
+            let runs: u64 = arg_val(&args, "--runs").and_then(|s| s.parse().ok()).unwrap_or(1000);
+            let seed: u64 = arg_val(&args, "--seed").and_then(|s| s.parse().ok()).unwrap_or(1);
+            let mut sigs: BTreeMap<String, (u64, String, String)> = BTreeMap::new();
+            let mut rejected = 0u64;
+            let mut rej_sample = String::new();
+            let mut stats: exec::Stats = Default::default();
+            let mut steps = 0usize;
+            let t0 = std::time::Instant::now();
+            let from: u64 = arg_val(&args, "--from").and_then(|s| s.parse().ok()).unwrap_or(0);
+            for run in from..runs {
+                let s = prng::mix(seed, "explore", run);
+                let (init, mut src, _shape) = make_run(s, focus);
+                let out = exec::execute(&init, &mut src, std::env::var("DNSSIM_TRACE").is_ok());
+                steps += out.steps;
+                if let Some(r) = out.rejected {
+                    rejected += 1;
+                    if rej_sample.is_empty() {
+                        rej_sample = format!("{} :: {}", r, serde_json::to_string(&init).unwrap());
+                    }
+                    continue;
+                }
+                for (k, v) in &out.stats {
+                    *stats.entry(k.clone()).or_insert(0) += v;
+                }
+                if let Some(v) = out.violation {
+                    let key = format!("{:?} {}", v.props, v.signature());
+                    let e = sigs.entry(key).or_insert((0, String::new(), String::new()));
+                    e.0 += 1;
+                    if e.1.is_empty() || serde_json::to_string(&out.executed).unwrap().len() < e.2.len() {
+                        e.1 = v.detail.clone();
+                        e.2 = serde_json::to_string(&out.executed).unwrap();
+                    }
+                }
+            }
+            println!(
+                "runs={} steps={} rejected={} wall={:.2}s",
+                runs,
+                steps,
+                rejected,
+                t0.elapsed().as_secs_f64()
+            );
+            if rejected > 0 {
+                println!("REJECT SAMPLE: {}", &rej_sample[..rej_sample.len().min(600)]);
+            }
+            for (k, v) in &stats {
+                println!("  stat {} = {}", k, v);
+            }
+            for (k, (n, d, sc)) in &sigs {
+                println!("\n== {} x{}\n   {}\n   {}", k, n, d, &sc[..sc.len().min(700)]);
+            }
+        }
+        "replay-json" => {
+            let sc: ops::Scenario = serde_json::from_str(&args[2]).expect("scenario json");
+            let mut src = exec::Scripted::new(sc.ops.clone());
+            let out = exec::execute(&sc.init, &mut src, true);
+            println!("{:?}", out.violation);
+        }
+        _ => {
+            eprintln!("usage: dnssim explore|replay-json ...");
+            std::process::exit(2);
+        }
+    }
+}
+
+#[cfg(test)]
+mod tests {
+    use super::*;
+    #[test]
+    fn names_fit() {
+        let mut rng = prng::Rng::new(7);
+        for _ in 0..200000 {
+            let n = gen::gen_name(&mut rng);
+            assert!(n.wire_len() <= 255, "gen_name {}", n.wire_len());
+            let n = gen::gen_ldh_name(&mut rng);
+            assert!(n.wire_len() <= 253, "gen_ldh_name {}", n.wire_len());
+            let t = rng.range(1, 255);
+            let n = gen::gen_name_of_len(&mut rng, t);
+            assert!(n.wire_len() <= 255 && (n.wire_len() == t || t == 2), "gen_name_of_len {} {}", t, n.wire_len());
+        }
+    }
+}
